@@ -454,7 +454,8 @@ class EpiSim(object):
         if op.get("np_seed") is not None:
             np.random.seed(op["np_seed"] % (2 ** 32))
             random.seed(op["np_seed"])
-        rec = {"seq": self.sink.next_seq(), "kind": "reset", "env": h.tag, "fold": op.get("fold"), "exc": None}
+        rec = {"seq": self.sink.next_seq(), "kind": "reset", "env": h.tag, "fold": op.get("fold"), "exc": None,
+               "episode_length_arg": op.get("episode_length")}
         self.api.append(rec)
         self.sink.records.append(rec)
         self.stats["resets"] += 1
@@ -484,6 +485,8 @@ class EpiSim(object):
         if h.env.broker is None:
             return      # never reset: nothing to step (script shrunk)
         ep = h.episodes[-1] if h.episodes else None
+        if ep is not None and ep["failed"]:
+            return      # reset() raised: there is no episode to step (the environment is half reset)
         action = h.resolve_action(op["action"])
         n_before = len(h.env.broker.track_record)
         hold_before = h.holdings()[0]
